@@ -2,6 +2,7 @@ SPECIFICATION Spec
 CONSTANTS
   MaxItems = 8
   WireWeight = 30
+  WithAC = FALSE
   MinItems = 4
   Syms = {"R", "G", "Z", "C", "L", "lamp", "sw_open", "sw_closed", "lline", "V", "I", "ACV", "ACI", "CV", "CI", "RectV", "TriV", "SawV", "RectI", "TriI", "SawI"}
 INVARIANT Check
